@@ -2,19 +2,34 @@
 
 The rules of this checker are written against the code's *audited* structure (which function
 contains which construct).  Ordinary maintenance changes that structure without changing
-behaviour; two such changes are normalised away here, on the parsed tree, before any rule runs:
+behaviour; such changes are normalised away here, on the parsed trees of the whole package,
+before any rule runs:
 
-  N1  module-level constants (``NAME = <literal>`` bound once) are propagated into their uses,
-      so ``since >= MAX_SKEW`` reads as ``since >= 600`` again;
-  N2  *new* private helpers - functions/methods that did not exist when the rule anchors were
-      frozen (sa/known_funcs.json) - are inlined at their call sites inside the same module when
-      that is structurally possible (single exit after return-linearisation, no generator, no
-      decorator that changes call semantics).  Functions that existed at freeze time are never
-      inlined: the rules address them by name.
+  N1  module-level constants (``NAME = <literal>`` bound once) are propagated into their uses -
+      also across modules when they are imported by name - and UPPER_CASE class constants into
+      ``self.NAME`` / ``cls.NAME`` / ``Class.NAME``;
+  N2  *new* helpers - functions/methods/nested closures that did not exist when the rule anchors
+      were frozen (sa/known_funcs.json) - are inlined at their call sites:
+        a. statement position (``helper(x)``, ``v = await self._helper(x)``, ``return helper(x)``);
+           returns are linearised, or - for general control flow - turned into a one-trip
+           ``while True: … break`` region, which keeps every path exactly
+        b. expression position (``if not await self._accept(req, ws):``): the call is hoisted in
+           front of the statement when it is evaluated unconditionally and first
+        c. generator helpers consumed by a ``for`` loop are fused with the loop body; generator
+           helpers consumed by set()/list()/extend()/update()/any()/… become an accumulating loop
+        d. a dispatch table of new helpers (``{"add": self._op_add, …}.get(op)`` followed by a
+           call, or a ``for f in (self._a, self._b): f(x)`` loop) is expanded into the equivalent
+           if/elif chain resp. unrolled
+        e. helpers may live in another module of the package (imported by name or through a
+           module alias) or in a base class
+      Functions that existed at freeze time are never inlined: the rules address them by name.
+      A known function that was *moved* to another module and imported back keeps its old
+      address (core.Program resolves it through the import).
 
-Inlining is for analysis only (argument expressions may be duplicated); it never changes what
-is reported as the property - a mutation hidden inside a newly extracted helper is simply
-brought back into view of the rule that audits the caller.
+Inlining is for analysis only (argument expressions may be duplicated, names of the callee's
+module are not re-imported); it never changes what is reported as the property - a mutation
+hidden inside a newly extracted helper is simply brought back into view of the rule that audits
+the caller.
 """
 from __future__ import annotations
 
@@ -26,6 +41,7 @@ from typing import Optional
 
 HERE = os.path.dirname(os.path.abspath(__file__))
 _KNOWN = None
+DEBUG = os.environ.get("SA_DEBUG_NORMALIZE") == "1"
 
 
 def known_funcs() -> set:
@@ -40,6 +56,12 @@ def known_funcs() -> set:
 
 
 FuncT = (ast.FunctionDef, ast.AsyncFunctionDef)
+LoopT = (ast.For, ast.AsyncFor, ast.While)
+
+
+def _dbg(*a):
+    if DEBUG:
+        print("[normalize]", *a)
 
 
 # --------------------------------------------------------------------------
@@ -56,7 +78,7 @@ def _is_literal(v) -> bool:
     return False
 
 
-def propagate_constants(tree: ast.Module) -> int:
+def module_constants(tree: ast.Module) -> dict:
     consts = {}
     counts = {}
     for st in tree.body:
@@ -68,17 +90,22 @@ def propagate_constants(tree: ast.Module) -> int:
             counts[st.target.id] = counts.get(st.target.id, 0) + 1
             if _is_literal(st.value):
                 consts[st.target.id] = st.value
-    # names rebound anywhere else (global statements, augmented assignment, for targets at module level) are not constants
+    # names rebound anywhere else (global statements, augmented assignment) are not constants
     for n in ast.walk(tree):
         if isinstance(n, ast.Global):
             for nm in n.names:
                 consts.pop(nm, None)
         if isinstance(n, (ast.AugAssign,)) and isinstance(n.target, ast.Name):
             consts.pop(n.target.id, None)
-    consts = {k: v for k, v in consts.items() if counts.get(k) == 1 and k.isupper()}
+    return {k: v for k, v in consts.items() if counts.get(k) == 1 and k.isupper()}
+
+
+def propagate_constants(tree: ast.Module, imported: Optional[dict] = None) -> int:
+    consts = module_constants(tree)
+    for k, v in (imported or {}).items():
+        consts.setdefault(k, v)
     if not consts:
         return 0
-    # do not propagate into functions that shadow the name
     n_rep = 0
 
     class T(ast.NodeTransformer):
@@ -109,8 +136,39 @@ def propagate_constants(tree: ast.Module) -> int:
     return n_rep
 
 
+def propagate_class_constants(tree: ast.Module) -> int:
+    """``self.NAME`` / ``cls.NAME`` / ``Class.NAME`` where NAME is an UPPER_CASE literal bound once in the class body."""
+    n_rep = 0
+    for cd in [c for c in ast.walk(tree) if isinstance(c, ast.ClassDef)]:
+        consts = {}
+        for st in cd.body:
+            if isinstance(st, ast.Assign) and len(st.targets) == 1 and isinstance(st.targets[0], ast.Name) and st.targets[0].id.isupper() and _is_literal(st.value):
+                consts[st.targets[0].id] = st.value
+        if not consts:
+            continue
+        for n in ast.walk(tree):
+            if isinstance(n, ast.Attribute) and isinstance(n.ctx, ast.Store) and n.attr in consts:
+                consts.pop(n.attr, None)
+        if not consts:
+            continue
+
+        class T(ast.NodeTransformer):
+            def visit_Attribute(self, node):
+                nonlocal n_rep
+                self.generic_visit(node)
+                if isinstance(node.ctx, ast.Load) and node.attr in consts and isinstance(node.value, ast.Name) and node.value.id in ("self", "cls", cd.name):
+                    n_rep += 1
+                    return ast.copy_location(copy.deepcopy(consts[node.attr]), node)
+                return node
+
+        for sub in cd.body:
+            if isinstance(sub, FuncT):
+                T().visit(sub)
+    return n_rep
+
+
 # --------------------------------------------------------------------------
-# N2 helper inlining
+# helpers for inlining
 
 
 def _body_wo_doc(fn):
@@ -120,22 +178,31 @@ def _body_wo_doc(fn):
     return b
 
 
+def _own_walk(node):
+    """walk without descending into nested function/lambda/class definitions (the node itself may be a def)"""
+    todo = list(ast.iter_child_nodes(node))
+    while todo:
+        n = todo.pop()
+        yield n
+        if isinstance(n, FuncT + (ast.Lambda, ast.ClassDef)):
+            continue
+        todo.extend(ast.iter_child_nodes(n))
+
+
 def _has_yield(fn) -> bool:
-    for n in ast.walk(fn):
-        if isinstance(n, (ast.Yield, ast.YieldFrom)):
-            f = n
-            return True
-    return False
+    return any(isinstance(n, (ast.Yield, ast.YieldFrom)) for n in _own_walk(fn))
 
 
 def _returns_in(stmts) -> int:
     c = 0
     for s in stmts:
-        for n in ast.walk(s):
+        if isinstance(s, ast.Return):
+            c += 1
+        if isinstance(s, FuncT + (ast.ClassDef,)):
+            continue
+        for n in _own_walk(s):
             if isinstance(n, ast.Return):
                 c += 1
-            if isinstance(n, FuncT + (ast.Lambda,)) and n is not s:
-                pass
     return c
 
 
@@ -150,8 +217,6 @@ def _linearize(stmts: list, target: Optional[str]) -> list:
     for i, s in enumerate(stmts):
         rest = stmts[i + 1:]
         if isinstance(s, ast.Return):
-            if rest:
-                pass  # dead code after return: drop it
             if target is not None:
                 val = s.value if s.value is not None else ast.Constant(value=None)
                 out.append(ast.copy_location(ast.Assign(targets=[ast.Name(id=target, ctx=ast.Store())], value=val, lineno=s.lineno), s))
@@ -177,30 +242,6 @@ def _linearize(stmts: list, target: Optional[str]) -> list:
                 new.body = [ast.copy_location(ast.Pass(), s)]
             out.append(new)
             return out
-        if isinstance(s, ast.Try) and _returns_in([s]) and not rest_needed(rest):
-            new = copy.copy(s)
-            new.body = _linearize(s.body, target) if _returns_in(s.body) else list(s.body)
-            new.handlers = []
-            for h in s.handlers:
-                nh = copy.copy(h)
-                nh.body = _linearize(h.body, target) if _returns_in(h.body) else list(h.body)
-                if not nh.body:
-                    nh.body = [ast.copy_location(ast.Pass(), h)]
-                new.handlers.append(nh)
-            new.orelse = _linearize(s.orelse, target) if s.orelse and _returns_in(s.orelse) else list(s.orelse)
-            if _returns_in(s.finalbody):
-                raise NotInlinable("return inside finally")
-            if not new.body:
-                new.body = [ast.copy_location(ast.Pass(), s)]
-            # every path through the try ends in a return, or the remainder is empty
-            if rest:
-                raise NotInlinable("statements after a try that returns")
-            if not (_always_returns(s.body) or not _returns_in(s.body)):
-                raise NotInlinable("try body returns conditionally")
-            out.append(new)
-            if target is not None and not _always_returns(s.body) and not all(_always_returns(h.body) for h in s.handlers):
-                pass
-            return out
         if isinstance(s, (ast.With, ast.AsyncWith)) and _returns_in([s]) and not rest:
             new = copy.copy(s)
             new.body = _linearize(s.body, target)
@@ -212,13 +253,8 @@ def _linearize(stmts: list, target: Optional[str]) -> list:
             raise NotInlinable("return inside a loop / try / with")
         out.append(s)
     if target is not None:
-        # falls off the end: returns None
         out.append(ast.Assign(targets=[ast.Name(id=target, ctx=ast.Store())], value=ast.Constant(value=None), lineno=getattr(stmts[-1], "lineno", 0) if stmts else 0))
     return out
-
-
-def rest_needed(rest) -> bool:
-    return bool(rest)
 
 
 def _always_returns(stmts) -> bool:
@@ -226,10 +262,84 @@ def _always_returns(stmts) -> bool:
         return False
     last = stmts[-1]
     if isinstance(last, (ast.Return, ast.Raise)):
-        return isinstance(last, ast.Return) or True
+        return True
     if isinstance(last, ast.If) and last.orelse:
         return _always_returns(last.body) and _always_returns(last.orelse)
     return False
+
+
+class Region(ast.stmt):
+    """Body of an inlined helper whose returns could not be linearised.  Not a loop: rules that count or look for loops do
+    not see it; the CFG builder (sa/cfg.py) runs the body once and lets `RegionExit` jump behind it."""
+
+    _fields = ("body",)
+
+
+class RegionExit(ast.stmt):
+    """a former `return` of an inlined helper: continue behind the enclosing Region"""
+
+    _fields = ()
+
+
+def _unparse_region(self, node):
+    self.fill("if 'inlined helper'")
+    with self.block():
+        self.traverse(node.body)
+
+
+def _unparse_region_exit(self, node):
+    self.fill("pass  # leave the inlined helper")
+
+
+# ast.unparse has no generic fallback for statement classes it does not know: teach it the two synthetic ones
+if hasattr(ast, "_Unparser"):
+    ast._Unparser.visit_Region = _unparse_region  # type: ignore[attr-defined]
+    ast._Unparser.visit_RegionExit = _unparse_region_exit  # type: ignore[attr-defined]
+
+
+def _loopify(stmts: list, target: Optional[str], suffix: str) -> list:
+    """General return elimination: the body becomes a Region, ``return e`` becomes ``<target> = e; RegionExit``."""
+
+    def assign(name, value, at):
+        return ast.copy_location(ast.Assign(targets=[ast.Name(id=name, ctx=ast.Store())], value=value, lineno=getattr(at, "lineno", 0)), at)
+
+    def conv(block):
+        out = []
+        for s in block:
+            if isinstance(s, ast.Return):
+                if target is not None:
+                    out.append(assign(target, s.value if s.value is not None else ast.Constant(value=None), s))
+                elif s.value is not None and not isinstance(s.value, ast.Constant):
+                    out.append(ast.copy_location(ast.Expr(value=s.value), s))
+                out.append(ast.copy_location(RegionExit(), s))
+                continue
+            if isinstance(s, FuncT + (ast.ClassDef,)) or not _returns_in([s]):
+                out.append(s)
+                continue
+            if type(s).__name__ == "Match":
+                raise NotInlinable("match statement")
+            new = copy.copy(s)
+            if isinstance(s, ast.Try):
+                if _returns_in(s.finalbody):
+                    raise NotInlinable("return inside finally")
+                new.handlers = []
+                for h in s.handlers:
+                    nh = copy.copy(h)
+                    nh.body = conv(h.body)
+                    new.handlers.append(nh)
+            for field in ("body", "orelse"):
+                sub = getattr(s, field, None)
+                if isinstance(sub, list) and sub and isinstance(sub[0], ast.stmt):
+                    setattr(new, field, conv(sub))
+            out.append(new)
+        return out
+
+    body = conv(stmts)
+    at = stmts[0] if stmts else ast.Pass()
+    if target is not None and not _always_returns(stmts):
+        body.append(assign(target, ast.Constant(value=None), at))
+    region = ast.copy_location(Region(body=body or [ast.copy_location(ast.Pass(), at)]), at)
+    return [region]
 
 
 def _as_expression(fn) -> Optional[ast.AST]:
@@ -293,8 +403,9 @@ def _bind(fn, call: ast.Call, drop_self: bool):
         raise NotInlinable("too many args")
     for p, a in zip(params, call.args):
         mapping[p] = a
+    kwonly = {a.arg: d for a, d in zip(fn.args.kwonlyargs, fn.args.kw_defaults)}
     for k in call.keywords:
-        if k.arg not in params:
+        if k.arg not in params and k.arg not in kwonly:
             raise NotInlinable("unknown keyword")
         mapping[k.arg] = k.value
     for p in params:
@@ -303,8 +414,11 @@ def _bind(fn, call: ast.Call, drop_self: bool):
                 mapping[p] = dmap[p]
             else:
                 raise NotInlinable("missing argument")
-    for ko in fn.args.kwonlyargs:
-        raise NotInlinable("kw-only parameters")
+    for p, d in kwonly.items():
+        if p not in mapping:
+            if d is None:
+                raise NotInlinable("missing kw-only argument")
+            mapping[p] = d
     if fn.args.vararg or fn.args.kwarg:
         raise NotInlinable("variadic helper")
     return mapping
@@ -313,15 +427,44 @@ def _bind(fn, call: ast.Call, drop_self: bool):
 _counter = [0]
 
 
-def _instantiate(fn, call, drop_self, target):
-    """statements of fn's body with parameters substituted, locals renamed, returns linearised into `target`"""
+def _next_suffix() -> str:
+    _counter[0] += 1
+    return f"__inl{_counter[0]}"
+
+
+def _prepare_body(fn, call, drop_self, taken=None):
+    """(pre statements, body copy, parameter mapping, local renaming, suffix).  Locals of the helper are renamed only when
+    their name is `taken` in the caller (None = rename all): rules that look for a variable by name keep finding it."""
     mapping = _bind(fn, call, drop_self)
     body = copy.deepcopy(_body_wo_doc(fn))
-    # parameters that are re-bound inside the helper cannot be substituted: bind them with an assignment first
-    stores = {n.id for s in body for n in ast.walk(s) if isinstance(n, ast.Name) and isinstance(n.ctx, ast.Store)}
+    shared = set()
+    for s in body:
+        for n in [s] + list(_own_walk(s)):
+            if isinstance(n, (ast.Nonlocal, ast.Global)):
+                shared.update(n.names)
+
+    class Strip(ast.NodeTransformer):
+        def visit_Nonlocal(self, node):
+            return ast.copy_location(ast.Pass(), node)
+
+        visit_Global = visit_Nonlocal
+
+        def visit_FunctionDef(self, node):
+            return node
+
+        visit_AsyncFunctionDef = visit_FunctionDef
+
+    body = [Strip().visit(s) for s in body]
+    stores = set()
+    for s in body:
+        for n in [s] + list(_own_walk(s)):
+            if isinstance(n, ast.Name) and isinstance(n.ctx, ast.Store):
+                stores.add(n.id)
+            if isinstance(n, ast.ExceptHandler) and n.name:
+                stores.add(n.name)
+    stores -= shared
+    suffix = _next_suffix()
     pre = []
-    _counter[0] += 1
-    suffix = f"__inl{_counter[0]}"
     rename = {}
     for p in list(mapping):
         if p in stores:
@@ -329,47 +472,347 @@ def _instantiate(fn, call, drop_self, target):
             pre.append(ast.copy_location(ast.Assign(targets=[ast.Name(id=p + suffix, ctx=ast.Store())], value=copy.deepcopy(mapping[p]), lineno=call.lineno), call))
             del mapping[p]
     for nm in stores:
-        if nm not in rename:
+        if nm not in rename and (taken is None or nm in taken):
             rename[nm] = nm + suffix
+    if taken is not None:
+        taken.update(stores)
+    return pre, body, mapping, rename, suffix
+
+
+class _FoldFStrings(ast.NodeTransformer):
+    """f"{'>='} x" -> f">= x": a constant that was substituted into a replacement field becomes literal text again"""
+
+    def visit_JoinedStr(self, node):
+        self.generic_visit(node)
+        vals = []
+        for v in node.values:
+            if isinstance(v, ast.FormattedValue) and isinstance(v.value, ast.Constant) and isinstance(v.value.value, (str, int)) and not isinstance(v.value.value, bool) \
+                    and v.conversion == -1 and v.format_spec is None:
+                v = ast.copy_location(ast.Constant(value=str(v.value.value)), v)
+            if isinstance(v, ast.Constant) and vals and isinstance(vals[-1], ast.Constant):
+                vals[-1] = ast.copy_location(ast.Constant(value=str(vals[-1].value) + str(v.value)), vals[-1])
+            else:
+                vals.append(v)
+        node.values = vals
+        return node
+
+
+class _RenameHandlers(ast.NodeTransformer):
+    def __init__(self, rename):
+        self.rename = rename
+
+    def visit_ExceptHandler(self, node):
+        self.generic_visit(node)
+        if node.name and node.name in self.rename:
+            node.name = self.rename[node.name]
+        return node
+
+    def visit_FunctionDef(self, node):
+        return node
+
+    visit_AsyncFunctionDef = visit_FunctionDef
+
+
+def _instantiate(fn, call, drop_self, target, taken=None):
+    """statements of fn's body with parameters substituted, locals renamed, returns eliminated into `target`"""
+    pre, body, mapping, rename, suffix = _prepare_body(fn, call, drop_self, taken)
     internal = f"__ret{suffix}" if target is not None else None
-    body = _linearize(body, internal)
-    rename.pop(internal, None)
-    sub = _Subst(mapping, rename)
-    body = [sub.visit(s) for s in body]
     if target is not None:
-        body.append(ast.copy_location(ast.Assign(targets=[ast.Name(id=target, ctx=ast.Store())], value=ast.Name(id=internal, ctx=ast.Load()), lineno=call.lineno), call))
+        names_in_body = {n.id for b in body for n in [b] + list(_own_walk(b)) if isinstance(n, ast.Name)}
+        arg_names = {n.id for v in mapping.values() for n in ast.walk(v) if isinstance(n, ast.Name)}
+        rets = [r for b in body for r in [b] + list(_own_walk(b)) if isinstance(r, ast.Return)]
+        stores_b = {n.id for b in body for n in [b] + list(_own_walk(b)) if isinstance(n, ast.Name) and isinstance(n.ctx, ast.Store)}
+        uniform = {r.value.id for r in rets if isinstance(r.value, ast.Name)} if rets and all(isinstance(r.value, ast.Name) for r in rets) else set()
+        if len(uniform) == 1 and next(iter(uniform)) in stores_b and next(iter(uniform)) not in mapping and target not in arg_names \
+                and (target == next(iter(uniform)) or target not in names_in_body) and target not in set(rename.values()):
+            # the helper builds its result in one local and returns it: that local *is* the caller's variable
+            rename[next(iter(uniform))] = target
+            internal = target
+        elif target not in (names_in_body | set(rename.values()) | arg_names):
+            internal = target  # assign the caller's variable directly in every branch: no synthetic copy
+    try:
+        body2 = _linearize(body, internal)
+    except NotInlinable:
+        body2 = _loopify(body, internal, suffix)
+    sub = _Subst(mapping, rename)
+    body2 = [_FoldFStrings().visit(_RenameHandlers(rename).visit(sub.visit(s))) for s in body2]
+    body2 = _drop_self_assign(body2)
+    if target is not None and internal != target:
+        body2.append(ast.copy_location(ast.Assign(targets=[ast.Name(id=target, ctx=ast.Store())], value=ast.Name(id=internal, ctx=ast.Load()), lineno=call.lineno), call))
+    for s in pre + body2:
+        ast.fix_missing_locations(s)
+    return pre + body2
+
+
+def _drop_self_assign(block):
+    out = []
+    for s in block:
+        if isinstance(s, ast.Assign) and len(s.targets) == 1 and isinstance(s.targets[0], ast.Name) and isinstance(s.value, ast.Name) and s.value.id == s.targets[0].id:
+            continue
+        if not isinstance(s, FuncT + (ast.ClassDef,)):
+            for field in ("body", "orelse", "finalbody"):
+                sub = getattr(s, field, None)
+                if isinstance(sub, list) and sub and isinstance(sub[0], ast.stmt):
+                    nb = _drop_self_assign(sub)
+                    setattr(s, field, nb if (nb or field != "body") else [ast.copy_location(ast.Pass(), s)])
+            if isinstance(s, ast.Try):
+                for h in s.handlers:
+                    h.body = _drop_self_assign(h.body) or [ast.copy_location(ast.Pass(), h)]
+        out.append(s)
+    return out
+
+
+def _yield_nodes(fn):
+    return [n for n in _own_walk(fn) if isinstance(n, (ast.Yield, ast.YieldFrom))]
+
+
+def _parent_map(root):
+    pm = {}
+    for p in ast.walk(root):
+        for c in ast.iter_child_nodes(p):
+            pm[id(c)] = p
+    return pm
+
+
+def _is_tail(node, top, parents) -> bool:
+    """nothing of `top` executes after `node` (node is last in its block, recursively up to top's body; no enclosing loop)"""
+    cur = node
+    while cur is not top:
+        p = parents.get(id(cur))
+        if p is None:
+            return False
+        placed = False
+        for field in ("body", "orelse", "finalbody"):
+            seq = getattr(p, field, None)
+            if isinstance(seq, list) and any(x is cur for x in seq):
+                placed = True
+                if seq[-1] is not cur:
+                    return False
+                if isinstance(p, LoopT) and p is not top and field == "body":
+                    return False
+                if isinstance(p, ast.Try) and field == "body" and (p.orelse or p.finalbody):
+                    return False
+        if isinstance(p, ast.ExceptHandler):
+            placed = True
+        if not placed and not isinstance(p, (ast.ExceptHandler,)):
+            # expression parents etc.
+            pass
+        cur = p
+    return True
+
+
+def _unbound_jumps(stmts, kinds):
+    """break/continue statements in stmts that are bound to the *enclosing* loop (not to a loop nested in stmts)"""
+    out = []
+
+    def go(block, depth):
+        for s in block:
+            if isinstance(s, kinds) and depth == 0:
+                out.append(s)
+            if isinstance(s, FuncT + (ast.ClassDef,)):
+                continue
+            d2 = depth + 1 if isinstance(s, LoopT) else depth
+            for field in ("body", "orelse", "finalbody"):
+                sub = getattr(s, field, None)
+                if isinstance(sub, list) and sub and isinstance(sub[0], ast.stmt):
+                    go(sub, d2 if field == "body" else depth)
+            if isinstance(s, ast.Try):
+                for h in s.handlers:
+                    go(h.body, depth)
+
+    go(stmts, 0)
+    return out
+
+
+def _fuse_generator(fn, call, drop_self, target_node, loop_body, taken=None):
+    """``for T in gen(args): BODY`` -> gen's body with every ``yield e`` replaced by ``T = e; BODY``"""
+    ynodes = _yield_nodes(fn)
+    if any(isinstance(y, ast.YieldFrom) for y in ynodes):
+        raise NotInlinable("yield from")
+    body0 = _body_wo_doc(fn)
+    ystmts = [n for s in body0 for n in [s] + list(_own_walk(s)) if isinstance(n, ast.Expr) and isinstance(n.value, ast.Yield)]
+    if len(ystmts) != len(ynodes):
+        raise NotInlinable("yield used as an expression")
+    if _returns_in(body0):
+        raise NotInlinable("return inside the generator")
+    has_break = bool(_unbound_jumps(loop_body, (ast.Break,)))
+    has_continue = bool(_unbound_jumps(loop_body, (ast.Continue,)))
+    if has_break or has_continue:
+        parents = _parent_map(fn)
+        loops = set()
+        for y in ystmts:
+            p = parents.get(id(y))
+            lp = None
+            while p is not None and p is not fn:
+                if isinstance(p, LoopT):
+                    lp = p
+                    break
+                p = parents.get(id(p))
+            if lp is None:
+                raise NotInlinable("break/continue in the consumer but the yield is not inside a loop")
+            loops.add(id(lp))
+            if has_continue and not _is_tail(y, lp, parents):
+                raise NotInlinable("continue in the consumer but statements follow the yield")
+            if has_break and not _is_tail(lp, fn, parents):
+                raise NotInlinable("break in the consumer but statements follow the generator's loop")
+        if len(loops) != 1:
+            raise NotInlinable("yields in several loops")
+    pre, body, mapping, rename, suffix = _prepare_body(fn, call, drop_self, taken)
+    # a generator that yields a plain local name into a plain target: rename instead of assigning (keeps the audited shape)
+    if isinstance(target_node, ast.Name):
+        ynames = {y.value.value.id for s in body for y in [s] + list(_own_walk(s)) if isinstance(y, ast.Expr) and isinstance(y.value, ast.Yield) and isinstance(y.value.value, ast.Name)}
+        nyield = sum(1 for s in body for y in [s] + list(_own_walk(s)) if isinstance(y, ast.Expr) and isinstance(y.value, ast.Yield))
+        if len(ynames) == 1 and nyield == len([1 for s in body for y in [s] + list(_own_walk(s)) if isinstance(y, ast.Expr) and isinstance(y.value, ast.Yield) and isinstance(y.value.value, ast.Name)]):
+            v = next(iter(ynames))
+            all_names = {n.id for s in body for n in [s] + list(_own_walk(s)) if isinstance(n, ast.Name)}
+            if v == target_node.id and v not in mapping:
+                rename.pop(v, None)  # same name on both sides: keep it
+            elif target_node.id not in all_names and v not in mapping:
+                rename[v] = target_node.id
+    sub = _Subst(mapping, rename)
+    body = [_RenameHandlers(rename).visit(sub.visit(s)) for s in body]
+
+    # a consumer body that reads the item exactly once (`acc.add(item)`): substitute the yielded expression itself
+    single_use = False
+    if isinstance(target_node, ast.Name):
+        uses = [n for b in loop_body for n in [b] + list(_own_walk(b)) if isinstance(n, ast.Name) and n.id == target_node.id]
+        single_use = len(uses) == 1 and isinstance(uses[0].ctx, ast.Load) and len(loop_body) == 1 and isinstance(loop_body[0], (ast.Expr, ast.Assign, ast.AugAssign))
+
+    def fix(block):
+        out = []
+        for s in block:
+            if isinstance(s, ast.Expr) and isinstance(s.value, ast.Yield):
+                val = s.value.value if s.value.value is not None else ast.Constant(value=None)
+                if single_use and not (isinstance(val, ast.Name) and val.id == target_node.id):
+                    out.extend(_Subst({target_node.id: val}, {}).visit(b) for b in copy.deepcopy(loop_body))
+                    continue
+                if isinstance(target_node, (ast.Tuple, ast.List)) and isinstance(val, (ast.Tuple, ast.List)) and len(val.elts) == len(target_node.elts) \
+                        and all(isinstance(t, ast.Name) for t in target_node.elts) and not any(isinstance(e, ast.Starred) for e in val.elts):
+                    # element-wise binding keeps each name a simple alias of its expression
+                    tnames = {t.id for t in target_node.elts}
+                    if not any(isinstance(n, ast.Name) and n.id in tnames for e in val.elts for n in ast.walk(e)):
+                        for t, e in zip(target_node.elts, val.elts):
+                            if not (isinstance(e, ast.Name) and e.id == t.id):
+                                out.append(ast.copy_location(ast.Assign(targets=[copy.deepcopy(t)], value=e, lineno=s.lineno), s))
+                        out.extend(copy.deepcopy(loop_body))
+                        continue
+                if not (isinstance(val, ast.Name) and isinstance(target_node, ast.Name) and val.id == target_node.id):
+                    out.append(ast.copy_location(ast.Assign(targets=[copy.deepcopy(target_node)], value=val, lineno=s.lineno), s))
+                out.extend(copy.deepcopy(loop_body))
+                continue
+            if not isinstance(s, FuncT + (ast.ClassDef,)):
+                for field in ("body", "orelse", "finalbody"):
+                    subb = getattr(s, field, None)
+                    if isinstance(subb, list) and subb and isinstance(subb[0], ast.stmt):
+                        setattr(s, field, fix(subb))
+                if isinstance(s, ast.Try):
+                    for h in s.handlers:
+                        h.body = fix(h.body)
+            out.append(s)
+        return out
+
+    body = fix(body)
     for s in pre + body:
         ast.fix_missing_locations(s)
     return pre + body
 
 
-def _callee_of(call: ast.Call, helpers_mod: dict, helpers_cls: dict, cls_name: Optional[str]):
-    f = call.func
-    if isinstance(f, ast.Name) and f.id in helpers_mod:
-        return helpers_mod[f.id], False
-    if isinstance(f, ast.Attribute) and isinstance(f.value, ast.Name):
-        if f.value.id in ("self", "cls") and cls_name and (cls_name, f.attr) in helpers_cls:
-            fn = helpers_cls[(cls_name, f.attr)]
-            static = any(isinstance(d, ast.Name) and d.id == "staticmethod" for d in fn.decorator_list)
-            return fn, not static
-        if (f.value.id, f.attr) in helpers_cls:
-            fn = helpers_cls[(f.value.id, f.attr)]
-            static = any(isinstance(d, ast.Name) and d.id in ("staticmethod", "classmethod") for d in fn.decorator_list)
-            if static:
-                return fn, any(isinstance(d, ast.Name) and d.id == "classmethod" for d in fn.decorator_list)
-    return None, False
+# --------------------------------------------------------------------------
+# program-level normaliser
 
 
-def inline_new_helpers(tree: ast.Module, modname: str) -> int:
-    known = known_funcs()
-    if not known:
-        return 0
-    helpers_mod, helpers_cls = {}, {}
+class ProgramNormalizer:
+    def __init__(self, trees: dict, is_init: dict, focus: Optional[set] = None):
+        self.trees = trees
+        self.is_init = is_init
+        self.focus = focus  # when set: only these modules are (re-)normalised, the others already are
+        self.needs_full_reload = False
+        self.known = known_funcs()
+        self.funcs: dict = {}
+        self.classes: dict = {}
+        self.imports: dict = {}
+        self.stats = {m: {"constants_propagated": 0, "helper_calls_inlined": 0} for m in trees}
+        self._moved_cache: dict = {}
+        self._index()
 
-    def eligible(fn, qual):
-        if f"{modname}:{qual}" in known:
+    # ---- index -----------------------------------------------------------
+    def _index(self):
+        for mod, tree in self.trees.items():
+            fs, cs = {}, {}
+
+            def scan(body):
+                for st in body:
+                    if isinstance(st, FuncT):
+                        fs[st.name] = st
+                    elif isinstance(st, ast.ClassDef):
+                        cs[st.name] = st
+                    elif isinstance(st, (ast.If, ast.Try)):
+                        scan(st.body)
+                        scan(st.orelse)
+                        if isinstance(st, ast.Try):
+                            scan(st.finalbody)
+                            for h in st.handlers:
+                                scan(h.body)
+
+            scan(tree.body)
+            self.funcs[mod] = fs
+            self.classes[mod] = cs
+            imp = {}
+            for node in ast.walk(tree):
+                if isinstance(node, ast.Import):
+                    for a in node.names:
+                        imp[a.asname or a.name.split(".")[0]] = a.name if a.asname else a.name.split(".")[0]
+                elif isinstance(node, ast.ImportFrom):
+                    base = node.module or ""
+                    if node.level:
+                        parts = mod.split(".")
+                        pkgparts = parts if self.is_init.get(mod) else parts[:-1]
+                        anchor = pkgparts[: len(pkgparts) - (node.level - 1)]
+                        base = ".".join(anchor + ([node.module] if node.module else []))
+                    for a in node.names:
+                        imp[a.asname or a.name] = f"{base}.{a.name}" if base else a.name
+            self.imports[mod] = imp
+
+    def resolve(self, mod, name, depth=0):
+        """name visible in module `mod` -> ('func', mod2, def) | ('class', mod2, ClassDef) | ('module', mod2) | None"""
+        if depth > 4:
+            return None
+        if name in self.funcs.get(mod, {}):
+            return ("func", mod, self.funcs[mod][name])
+        if name in self.classes.get(mod, {}):
+            return ("class", mod, self.classes[mod][name])
+        tgt = self.imports.get(mod, {}).get(name)
+        if tgt is None:
+            return None
+        if tgt in self.trees:
+            return ("module", tgt)
+        m2, _, sym = tgt.rpartition(".")
+        if m2 in self.trees and m2 != mod:
+            return self.resolve(m2, sym, depth + 1)
+        return None
+
+    def _moved_known(self, qual) -> bool:
+        """a known function of that qualified name is missing from its frozen module: this def is the moved original"""
+        if qual in self._moved_cache:
+            return self._moved_cache[qual]
+        res = False
+        for k in self.known:
+            m0, _, q0 = k.partition(":")
+            if q0 == qual and m0 in self.trees:
+                if "." in q0:
+                    c, _, meth = q0.partition(".")
+                    cd = self.classes.get(m0, {}).get(c)
+                    if cd is None or not any(isinstance(s, FuncT) and s.name == meth for s in cd.body):
+                        res = True
+                elif q0 not in self.funcs.get(m0, {}):
+                    res = True
+        self._moved_cache[qual] = res
+        return res
+
+    def is_new(self, mod, qual, fn) -> bool:
+        if f"{mod}:{qual}" in self.known:
             return False
-        if _has_yield(fn):
+        if self._moved_known(qual):
             return False
         for d in fn.decorator_list:
             if not (isinstance(d, ast.Name) and d.id in ("staticmethod", "classmethod")):
@@ -378,82 +821,125 @@ def inline_new_helpers(tree: ast.Module, modname: str) -> int:
             return False
         return True
 
-    for st in tree.body:
-        if isinstance(st, FuncT) and eligible(st, st.name):
-            helpers_mod[st.name] = st
-        elif isinstance(st, ast.ClassDef):
-            for sub in st.body:
-                if isinstance(sub, FuncT) and eligible(sub, f"{st.name}.{sub.name}"):
-                    helpers_cls[(st.name, sub.name)] = sub
-    if not helpers_mod and not helpers_cls:
-        return 0
-    n_inl = 0
+    def class_method(self, mod, cd, name, seen=None):
+        """(defining module, ClassDef, def) for method `name` of class cd or its bases"""
+        seen = seen if seen is not None else set()
+        if id(cd) in seen:
+            return None
+        seen.add(id(cd))
+        for s in cd.body:
+            if isinstance(s, FuncT) and s.name == name:
+                return mod, cd, s
+        for b in cd.bases:
+            r = None
+            if isinstance(b, ast.Name):
+                r = self.resolve(mod, b.id)
+            elif isinstance(b, ast.Attribute) and isinstance(b.value, ast.Name):
+                rm = self.resolve(mod, b.value.id)
+                if rm and rm[0] == "module":
+                    r = self.resolve(rm[1], b.attr)
+            if r and r[0] == "class":
+                got = self.class_method(r[1], r[2], name, seen)
+                if got:
+                    return got
+        return None
 
-    def process_function(fn, cls_name):
-        nonlocal n_inl
+    def class_attr(self, mod, cd, name):
+        for s in cd.body:
+            if isinstance(s, ast.Assign) and len(s.targets) == 1 and isinstance(s.targets[0], ast.Name) and s.targets[0].id == name:
+                return s.value
+        return None
 
-        def rewrite_block(stmts):
-            nonlocal n_inl
-            out = []
-            for s in stmts:
-                # recurse into compound statements first
-                for field in ("body", "orelse", "finalbody"):
-                    sub = getattr(s, field, None)
-                    if isinstance(sub, list) and sub and isinstance(sub[0], ast.stmt) and not isinstance(s, FuncT + (ast.ClassDef,)):
-                        setattr(s, field, rewrite_block(sub))
-                if isinstance(s, ast.Try):
-                    for h in s.handlers:
-                        h.body = rewrite_block(h.body)
-                repl = None
-                call, wrap = None, None
-                if isinstance(s, ast.Expr):
-                    v = s.value
-                    call = v.value if isinstance(v, ast.Await) else v
-                    wrap = "expr"
-                elif isinstance(s, ast.Assign) and len(s.targets) == 1 and isinstance(s.targets[0], ast.Name):
-                    v = s.value
-                    call = v.value if isinstance(v, ast.Await) else v
-                    wrap = "assign"
-                elif isinstance(s, ast.Return) and s.value is not None:
-                    v = s.value
-                    call = v.value if isinstance(v, ast.Await) else v
-                    wrap = "return"
-                if isinstance(call, ast.Call):
-                    callee, drop_self = _callee_of(call, helpers_mod, helpers_cls, cls_name)
-                    if callee is not None and callee is not fn:
-                        is_async = isinstance(callee, ast.AsyncFunctionDef)
-                        awaited = isinstance(s.value, ast.Await)
-                        if is_async == awaited:
-                            try:
-                                if wrap == "expr":
-                                    repl = _instantiate(callee, call, drop_self, None)
-                                elif wrap == "assign":
-                                    repl = _instantiate(callee, call, drop_self, s.targets[0].id)
-                                else:
-                                    _counter[0] += 1
-                                    tmp = f"__ret{_counter[0]}"
-                                    repl = _instantiate(callee, call, drop_self, tmp)
-                                    repl.append(ast.copy_location(ast.Return(value=ast.Name(id=tmp, ctx=ast.Load())), s))
-                            except NotInlinable:
-                                repl = None
-                if repl is not None:
-                    n_inl += 1
-                    if not repl:
-                        repl = [ast.copy_location(ast.Pass(), s)]
-                    out.extend(repl)
-                else:
-                    out.append(s)
-            return out
+    # ---- callee resolution -----------------------------------------------
+    def callee_of(self, func_expr, ctx):
+        """(def, drop_self) for a callable expression, if it denotes a *new* helper"""
+        mod, cd, fn, nested = ctx["mod"], ctx["cls"], ctx["fn"], ctx["nested"]
+        f = func_expr
+        if isinstance(f, ast.Name):
+            if f.id in nested:
+                d = nested[f.id]
+                return (d, False) if d is not fn else None
+            if ctx.get("class_scope_names") and f.id in ctx["class_scope_names"]:
+                return (ctx["class_scope_names"][f.id], False)
+            r = self.resolve(mod, f.id)
+            if r and r[0] == "func" and self.is_new(r[1], r[2].name, r[2]) and r[2] is not fn:
+                return (r[2], False)
+            return None
+        if isinstance(f, ast.Attribute) and isinstance(f.value, ast.Name):
+            base = f.value.id
+            if base in ("self", "cls") and cd is not None:
+                got = self.class_method(mod, cd, f.attr)
+                if got:
+                    m2, c2, d = got
+                    if d is fn or not self.is_new(m2, f"{c2.name}.{d.name}", d):
+                        return None
+                    static = any(isinstance(x, ast.Name) and x.id == "staticmethod" for x in d.decorator_list)
+                    return (d, not static)
+                return None
+            r = self.resolve(mod, base)
+            if r and r[0] == "module":
+                d = self.funcs.get(r[1], {}).get(f.attr)
+                if d is not None and d is not fn and self.is_new(r[1], d.name, d):
+                    return (d, False)
+            if r and r[0] == "class":
+                got = self.class_method(r[1], r[2], f.attr)
+                if got:
+                    m2, c2, d = got
+                    if d is fn or not self.is_new(m2, f"{c2.name}.{d.name}", d):
+                        return None
+                    clsm = any(isinstance(x, ast.Name) and x.id == "classmethod" for x in d.decorator_list)
+                    return (d, clsm)  # staticmethod / Class.method(self, …): arguments as written
+        return None
 
-        fn.body = rewrite_block(fn.body)
+    # ---- per function ----------------------------------------------------
+    def process_function(self, fn, mod, cd):
+        nested = {}
+        qual_prefix = (f"{cd.name}." if cd is not None else "") + fn.name
 
-        # expression-position calls of expression helpers
+        def collect_nested(block):
+            for s in block:
+                if isinstance(s, FuncT):
+                    q = f"{qual_prefix}.{s.name}"
+                    if f"{mod}:{q}" not in self.known and not s.decorator_list and not _has_yield(s):
+                        nested[s.name] = s
+                elif not isinstance(s, ast.ClassDef):
+                    for field in ("body", "orelse", "finalbody"):
+                        sub = getattr(s, field, None)
+                        if isinstance(sub, list) and sub and isinstance(sub[0], ast.stmt):
+                            collect_nested(sub)
+                    if isinstance(s, ast.Try):
+                        for h in s.handlers:
+                            collect_nested(h.body)
+
+        collect_nested(fn.body)
+        taken = set()
+        for n in ast.walk(fn):
+            if isinstance(n, ast.Name):
+                taken.add(n.id)
+            elif isinstance(n, ast.arg):
+                taken.add(n.arg)
+        for d in nested.values():
+            # names that only occur inside a closure about to be inlined do not collide with anything
+            inner = {n.id for n in ast.walk(d) if isinstance(n, ast.Name)}
+            outside = set()
+            ids_inside = {id(n) for n in ast.walk(d)}
+            for n in ast.walk(fn):
+                if isinstance(n, ast.Name) and id(n) not in ids_inside:
+                    outside.add(n.id)
+            taken -= (inner - outside)
+        ctx = {"mod": mod, "cls": cd, "fn": fn, "nested": nested, "taken": taken}
+        count = [0]
+        fn.body = self.rewrite_block(fn.body, ctx, count)
+        outer = self
+
         class E(ast.NodeTransformer):
             def visit_Call(self, node):
-                nonlocal n_inl
                 self.generic_visit(node)
-                callee, drop_self = _callee_of(node, helpers_mod, helpers_cls, cls_name)
-                if callee is None or callee is fn or isinstance(callee, ast.AsyncFunctionDef):
+                got = outer.callee_of(node.func, ctx)
+                if got is None:
+                    return node
+                callee, drop_self = got
+                if isinstance(callee, ast.AsyncFunctionDef) or _has_yield(callee):
                     return node
                 expr = _as_expression(callee)
                 if expr is None:
@@ -462,7 +948,7 @@ def inline_new_helpers(tree: ast.Module, modname: str) -> int:
                     mapping = _bind(callee, node, drop_self)
                 except NotInlinable:
                     return node
-                n_inl += 1
+                count[0] += 1
                 new = _Subst(mapping, {}).visit(copy.deepcopy(expr))
                 return ast.copy_location(new, node)
 
@@ -472,54 +958,636 @@ def inline_new_helpers(tree: ast.Module, modname: str) -> int:
             visit_AsyncFunctionDef = visit_FunctionDef
 
         for i, s in enumerate(fn.body):
-            fn.body[i] = E().visit(s)
+            if not isinstance(s, FuncT + (ast.ClassDef,)):
+                fn.body[i] = E().visit(s)
         ast.fix_missing_locations(fn)
+        if nested and count[0]:
+            def used_outside(d):
+                inside = {id(n) for n in ast.walk(d)}
+                return any(isinstance(n, ast.Name) and n.id == d.name and isinstance(n.ctx, ast.Load) and id(n) not in inside for n in ast.walk(fn))
 
-    for _ in range(3):  # helpers calling helpers
-        before = n_inl
-        for st in tree.body:
-            if isinstance(st, FuncT):
-                process_function(st, None)
-                for sub in ast.walk(st):
-                    pass
-            elif isinstance(st, ast.ClassDef):
-                for sub in st.body:
-                    if isinstance(sub, FuncT):
-                        process_function(sub, st.name)
-        if n_inl == before:
-            break
-    if n_inl:
-        # helpers whose every use was inlined are dead code now: remove them so that whole-module scans do not
-        # see their bodies twice (once inlined in the audited caller, once in the orphaned helper)
-        def referenced(name, skip):
-            for n in ast.walk(tree):
-                if n is skip:
-                    continue
-                if isinstance(n, ast.Name) and n.id == name:
-                    return True
-                if isinstance(n, ast.Attribute) and n.attr == name:
-                    return True
-            return False
+            def drop(block):
+                out = []
+                for s in block:
+                    if isinstance(s, FuncT) and s.name in nested and not used_outside(s):
+                        continue
+                    if not isinstance(s, FuncT + (ast.ClassDef,)):
+                        for field in ("body", "orelse", "finalbody"):
+                            sub = getattr(s, field, None)
+                            if isinstance(sub, list) and sub and isinstance(sub[0], ast.stmt):
+                                nb = drop(sub)
+                                if field == "body" and not nb:
+                                    nb = [ast.copy_location(ast.Pass(), s)]
+                                setattr(s, field, nb)
+                        if isinstance(s, ast.Try):
+                            for h in s.handlers:
+                                h.body = drop(h.body) or [ast.copy_location(ast.Pass(), h)]
+                    out.append(s)
+                return out
 
-        for st in list(tree.body):
-            if isinstance(st, FuncT) and st.name in helpers_mod:
-                body, st.body = st.body, []
-                if not referenced(st.name, st):
-                    tree.body.remove(st)
-                else:
-                    st.body = body
-            elif isinstance(st, ast.ClassDef):
-                for sub in list(st.body):
-                    if isinstance(sub, FuncT) and (st.name, sub.name) in helpers_cls:
-                        body, sub.body = sub.body, []
-                        if not referenced(sub.name, sub):
-                            st.body.remove(sub)
+            fn.body = drop(fn.body) or [ast.Pass()]
+            ast.fix_missing_locations(fn)
+        return count[0]
+
+    # ---- statement rewriting ------------------------------------------------
+    def rewrite_block(self, stmts, ctx, count):
+        out = []
+        todo = list(stmts)
+        guard = 0
+        while todo:
+            s = todo.pop(0)
+            guard += 1
+            if isinstance(s, FuncT) and s.name not in ctx["nested"] and guard <= 3000:
+                # a nested function that is part of the audited shape: its body may call new helpers as well
+                ctx2 = dict(ctx)
+                ctx2["fn"] = s
+                s.body = self.rewrite_block(s.body, ctx2, count)
+                out.append(s)
+                continue
+            if guard > 3000 or isinstance(s, FuncT + (ast.ClassDef,)):
+                out.append(s)
+                continue
+            repl = self.rewrite_stmt(s, ctx, count)
+            if repl is None:
+                for field in ("body", "orelse", "finalbody"):
+                    sub = getattr(s, field, None)
+                    if isinstance(sub, list) and sub and isinstance(sub[0], ast.stmt):
+                        setattr(s, field, self.rewrite_block(sub, ctx, count))
+                if isinstance(s, ast.Try):
+                    for h in s.handlers:
+                        h.body = self.rewrite_block(h.body, ctx, count)
+                out.append(s)
+            else:
+                todo = list(repl) + todo  # re-examine (helpers calling helpers, several calls in one statement)
+        return out
+
+    def _single_binding(self, name, ctx):
+        fn = ctx["fn"]
+        binds = [s for s in ast.walk(fn) if isinstance(s, ast.Assign) and len(s.targets) == 1 and isinstance(s.targets[0], ast.Name) and s.targets[0].id == name]
+        other = [n for n in ast.walk(fn) if isinstance(n, ast.Name) and n.id == name and isinstance(n.ctx, ast.Store)]
+        if len(binds) == 1 and len(other) == 1:
+            return binds[0].value
+        return None
+
+    def _local_dispatch(self, name, ctx):
+        """`name = D.get(K[, default])` / `D[K]`: ((Dict node, ctx'), K expr, default expr|None)"""
+        v = self._single_binding(name, ctx)
+        if v is None:
+            return None
+        dexpr = key = default = None
+        if isinstance(v, ast.Call) and isinstance(v.func, ast.Attribute) and v.func.attr == "get" and 1 <= len(v.args) <= 2 and not v.keywords:
+            dexpr, key = v.func.value, v.args[0]
+            default = v.args[1] if len(v.args) == 2 else None
+        elif isinstance(v, ast.Subscript):
+            dexpr, key = v.value, v.slice
+        if dexpr is None:
+            return None
+        d = self._dict_of(dexpr, ctx)
+        if d is None:
+            return None
+        return d, key, default
+
+    def _dict_of(self, dexpr, ctx):
+        """Dict literal denoted by a literal / local name / module name / self.attr / Class.attr, all values denoting new helpers"""
+        fn, mod, cd = ctx["fn"], ctx["mod"], ctx["cls"]
+        node = None
+        scope_names = None
+        if isinstance(dexpr, ast.Dict):
+            node = dexpr
+        elif isinstance(dexpr, ast.Name):
+            v = self._single_binding(dexpr.id, ctx)
+            if isinstance(v, ast.Dict):
+                node = v
+            elif v is None and not any(isinstance(n, ast.Name) and n.id == dexpr.id and isinstance(n.ctx, ast.Store) for n in ast.walk(fn)):
+                for st in self.trees[mod].body:
+                    if isinstance(st, ast.Assign) and len(st.targets) == 1 and isinstance(st.targets[0], ast.Name) and st.targets[0].id == dexpr.id and isinstance(st.value, ast.Dict):
+                        node = st.value
+        elif isinstance(dexpr, ast.Attribute) and isinstance(dexpr.value, ast.Name) and cd is not None and dexpr.value.id in ("self", "cls", cd.name):
+            v = self.class_attr(mod, cd, dexpr.attr)
+            if isinstance(v, ast.Dict):
+                node = v
+                scope_names = {s.name: s for s in cd.body if isinstance(s, FuncT) and self.is_new(mod, f"{cd.name}.{s.name}", s)}
+        if node is None or not node.keys or any(k is None or not isinstance(k, ast.Constant) for k in node.keys):
+            return None
+        ctx2 = dict(ctx)
+        if scope_names:
+            ctx2["class_scope_names"] = scope_names
+        for v in node.values:
+            if self._callable_target(v, ctx2) is None:
+                return None
+        return node, ctx2
+
+    def _callable_target(self, v, ctx):
+        """(func expr, extra leading args) when v denotes a new helper (possibly functools.partial(helper, a…))"""
+        if isinstance(v, ast.Call) and ast.unparse(v.func) in ("partial", "functools.partial") and v.args and not v.keywords:
+            inner = self._callable_target(v.args[0], ctx)
+            if inner is None:
+                return None
+            return inner[0], list(inner[1]) + list(v.args[1:])
+        if isinstance(v, (ast.Name, ast.Attribute)):
+            got = self.callee_of(v, ctx)
+            if got is not None and not _has_yield(got[0]):
+                return v, []
+        return None
+
+    def _materialise(self, fexpr, ctx2):
+        """a class-scope function name used as a table value is called with an explicit self: address it as Class.name"""
+        if isinstance(fexpr, ast.Name) and ctx2.get("class_scope_names") and fexpr.id in ctx2["class_scope_names"] and ctx2["cls"] is not None:
+            return ast.Attribute(value=ast.Name(id=ctx2["cls"].name, ctx=ast.Load()), attr=fexpr.id, ctx=ast.Load())
+        return copy.deepcopy(fexpr)
+
+    def rewrite_stmt(self, s, ctx, count):
+        """list of replacement statements, or None when s is left as it is"""
+        r = self._rewrite_dispatch(s, ctx, count)
+        if r is not None:
+            return r
+        # for f in (helper_a, helper_b): f(x)   /   for name, f in (("a", self._a), ("b", self._b)): …
+        if isinstance(s, ast.For) and isinstance(s.iter, (ast.Tuple, ast.List)) and s.iter.elts and not s.orelse and not _unbound_jumps(s.body, (ast.Break, ast.Continue)):
+            tnames = None
+            if isinstance(s.target, ast.Name):
+                tnames = [s.target.id]
+                rows = [[e] for e in s.iter.elts]
+            elif isinstance(s.target, (ast.Tuple, ast.List)) and all(isinstance(t, ast.Name) for t in s.target.elts):
+                tnames = [t.id for t in s.target.elts]
+                rows = [list(e.elts) if isinstance(e, (ast.Tuple, ast.List)) and len(e.elts) == len(tnames) else None for e in s.iter.elts]
+            if tnames and all(r is not None for r in rows):
+                cols_callable = [i for i in range(len(tnames)) if all(self._callable_target(r[i], ctx) is not None for r in rows)]
+                others_simple = all(isinstance(r[i], ast.Constant) or i in cols_callable for r in rows for i in range(len(tnames)))
+                if cols_callable and others_simple:
+                    self.__dict__.setdefault("unrolled_tables", set()).add(id(s.iter))
+                    out = []
+                    body_stores = {n.id for b in s.body for n in [b] + list(_own_walk(b)) if isinstance(n, ast.Name) and isinstance(n.ctx, ast.Store)} - set(tnames)
+                    for r in rows:
+                        suffix = _next_suffix()
+                        targets = {tnames[i]: self._callable_target(r[i], ctx) for i in cols_callable}
+                        consts = {tnames[i]: r[i] for i in range(len(tnames)) if i not in cols_callable}
+                        rename = {nm: nm + suffix for nm in body_stores}
+
+                        class R(ast.NodeTransformer):
+                            def visit_Call(self, node):
+                                self.generic_visit(node)
+                                if isinstance(node.func, ast.Name) and node.func.id in targets:
+                                    fexpr, extra = targets[node.func.id]
+                                    node.func = copy.deepcopy(fexpr)
+                                    node.args = [copy.deepcopy(a) for a in extra] + node.args
+                                elif isinstance(node.func, ast.Name) and node.func.id == "getattr" and len(node.args) == 2 and isinstance(node.args[1], ast.Constant) and isinstance(node.args[1].value, str):
+                                    return ast.copy_location(ast.Attribute(value=node.args[0], attr=node.args[1].value, ctx=ast.Load()), node)
+                                return node
+
+                            def visit_Name(self, node):
+                                if node.id in consts and isinstance(node.ctx, ast.Load):
+                                    return ast.copy_location(copy.deepcopy(consts[node.id]), node)
+                                if node.id in rename:
+                                    return ast.copy_location(ast.Name(id=rename[node.id], ctx=node.ctx), node)
+                                return node
+
+                        for b in copy.deepcopy(s.body):
+                            out.append(R().visit(b))
+                    count[0] += 1
+                    for o in out:
+                        ast.fix_missing_locations(o)
+                    return out
+        # generator helpers
+        if isinstance(s, (ast.For, ast.AsyncFor)) and not s.orelse and isinstance(s.iter, ast.Call):
+            got = self.callee_of(s.iter.func, ctx)
+            if got is not None and _has_yield(got[0]) and isinstance(got[0], ast.AsyncFunctionDef) == isinstance(s, ast.AsyncFor):
+                try:
+                    r = _fuse_generator(got[0], s.iter, got[1], s.target, s.body, ctx["taken"])
+                    count[0] += 1
+                    return r
+                except NotInlinable as e:
+                    _dbg("generator", got[0].name, "not fused:", e)
+        r = self._rewrite_generator_consumer(s, ctx, count)
+        if r is not None:
+            return r
+        r = self._rewrite_executor(s, ctx, count)
+        if r is not None:
+            return r
+        # statement-position calls
+        call, wrap = None, None
+        if isinstance(s, ast.Expr):
+            v = s.value
+            call = v.value if isinstance(v, ast.Await) else v
+            wrap = "expr"
+        elif isinstance(s, ast.Assign) and len(s.targets) == 1 and isinstance(s.targets[0], ast.Name):
+            v = s.value
+            call = v.value if isinstance(v, ast.Await) else v
+            wrap = "assign"
+        elif isinstance(s, ast.Return) and s.value is not None:
+            v = s.value
+            call = v.value if isinstance(v, ast.Await) else v
+            wrap = "return"
+        if isinstance(call, ast.Call):
+            got = self.callee_of(call.func, ctx)
+            if got is not None and not _has_yield(got[0]):
+                callee, drop_self = got
+                is_async = isinstance(callee, ast.AsyncFunctionDef)
+                awaited = isinstance(s.value, ast.Await)
+                if is_async == awaited:
+                    try:
+                        if wrap == "expr":
+                            repl = _instantiate(callee, call, drop_self, None, ctx["taken"])
+                        elif wrap == "assign":
+                            repl = _instantiate(callee, call, drop_self, s.targets[0].id, ctx["taken"])
                         else:
-                            sub.body = body
-    return n_inl
+                            tmp = f"__ret{_next_suffix()}"
+                            repl = _instantiate(callee, call, drop_self, tmp, ctx["taken"])
+                            repl.append(ast.copy_location(ast.Return(value=ast.Name(id=tmp, ctx=ast.Load())), s))
+                        count[0] += 1
+                        return repl or [ast.copy_location(ast.Pass(), s)]
+                    except NotInlinable as e:
+                        _dbg("helper", callee.name, "not inlined:", e)
+        return self._hoist(s, ctx, count)
+
+    def _rewrite_dispatch(self, s, ctx, count):
+        if not (isinstance(s, (ast.Expr, ast.Assign, ast.Return, ast.AugAssign)) and getattr(s, "value", None) is not None):
+            return None
+        for c in [c for c in _first_evaluated(s.value) if isinstance(c, ast.Call)]:
+            disp = None
+            if isinstance(c.func, ast.Name):
+                disp = self._local_dispatch(c.func.id, ctx)
+            elif isinstance(c.func, ast.Subscript):
+                d = self._dict_of(c.func.value, ctx)
+                if d is not None:
+                    disp = (d, c.func.slice, None)
+            elif isinstance(c.func, ast.Call) and isinstance(c.func.func, ast.Attribute) and c.func.func.attr == "get" and 1 <= len(c.func.args) <= 2:
+                d = self._dict_of(c.func.func.value, ctx)
+                if d is not None:
+                    disp = (d, c.func.args[0], c.func.args[1] if len(c.func.args) == 2 else None)
+            if disp is None:
+                continue
+            (dnode, ctx2), key, default = disp
+            self.__dict__.setdefault("expanded_tables", set()).add(id(dnode))
+
+            def variant(v):
+                fexpr, extra = self._callable_target(v, ctx2)
+                st = copy.deepcopy(s)
+                tgt_call = _find_same(st, s, c)
+                tgt_call.func = self._materialise(fexpr, ctx2)
+                tgt_call.args = [copy.deepcopy(a) for a in extra] + tgt_call.args
+                return st
+
+            tail = []
+            if default is not None and self._callable_target(default, ctx2) is not None:
+                tail = [variant(default)]
+            for k, v in reversed(list(zip(dnode.keys, dnode.values))):
+                test = ast.Compare(left=copy.deepcopy(key), ops=[ast.Eq()], comparators=[copy.deepcopy(k)])
+                node = ast.copy_location(ast.If(test=test, body=[variant(v)], orelse=tail), s)
+                tail = [node]
+            count[0] += 1
+            for t in tail:
+                ast.fix_missing_locations(t)
+            return tail
+        return None
+
+    def _rewrite_generator_consumer(self, s, ctx, count):
+        """X = set(gen(a)) / list / tuple / sorted / frozenset / any / all / sum / ''.join ; X.extend(gen(a)) ; X.update(gen(a))"""
+        if not isinstance(s, (ast.Expr, ast.Assign, ast.Return, ast.AugAssign, ast.If)):
+            return None
+        head = s.test if isinstance(s, ast.If) else getattr(s, "value", None)
+        if head is None:
+            return None
+        for c in _first_evaluated(head):
+            if not isinstance(c, ast.Call) or len(c.args) != 1 or (c.keywords and not all(k.arg in ("key", "reverse") for k in c.keywords)):
+                continue
+            g = c.args[0]
+            if not isinstance(g, ast.Call):
+                continue
+            got = self.callee_of(g.func, ctx)
+            if got is None or not _has_yield(got[0]) or isinstance(got[0], ast.AsyncFunctionDef):
+                continue
+            fname = ast.unparse(c.func)
+            method = c.func.attr if isinstance(c.func, ast.Attribute) else None
+            T = ast.Name(id=f"__item{_next_suffix()}", ctx=ast.Store())
+            Tl = ast.Name(id=T.id, ctx=ast.Load())
+            try:
+                if isinstance(s, ast.Expr) and c is s.value and method in ("extend", "update"):
+                    add = "append" if method == "extend" else "add"
+                    body = [ast.Expr(value=ast.Call(func=ast.Attribute(value=copy.deepcopy(c.func.value), attr=add, ctx=ast.Load()), args=[Tl], keywords=[]))]
+                    r = _fuse_generator(got[0], g, got[1], T, body, ctx["taken"])
+                    count[0] += 1
+                    return r
+                if isinstance(s, ast.Assign) and c is s.value and fname in ("set", "list") and len(s.targets) == 1 and isinstance(s.targets[0], ast.Name):
+                    X = s.targets[0].id
+                    init = ast.Assign(targets=[ast.Name(id=X, ctx=ast.Store())], value=ast.Call(func=ast.Name(id=fname, ctx=ast.Load()), args=[], keywords=[]), lineno=s.lineno)
+                    add = "add" if fname == "set" else "append"
+                    body = [ast.Expr(value=ast.Call(func=ast.Attribute(value=ast.Name(id=X, ctx=ast.Load()), attr=add, ctx=ast.Load()), args=[Tl], keywords=[]))]
+                    r = _fuse_generator(got[0], g, got[1], T, body, ctx["taken"])
+                    count[0] += 1
+                    out = [ast.copy_location(init, s)] + r
+                    for o in out:
+                        ast.fix_missing_locations(o)
+                    return out
+                if fname in ("set", "list", "tuple", "frozenset", "sorted", "any", "all", "sum", "max", "min", "dict") or method == "join":
+                    acc = f"__acc{_next_suffix()}"
+                    init = ast.Assign(targets=[ast.Name(id=acc, ctx=ast.Store())], value=ast.List(elts=[], ctx=ast.Load()), lineno=s.lineno)
+                    body = [ast.Expr(value=ast.Call(func=ast.Attribute(value=ast.Name(id=acc, ctx=ast.Load()), attr="append", ctx=ast.Load()), args=[Tl], keywords=[]))]
+                    r = _fuse_generator(got[0], g, got[1], T, body, ctx["taken"])
+                    c.args[0] = ast.Name(id=acc, ctx=ast.Load())
+                    count[0] += 1
+                    out = [ast.copy_location(init, s)] + r + [s]
+                    for o in out:
+                        ast.fix_missing_locations(o)
+                    return out
+            except NotInlinable as e:
+                _dbg("generator consumer", got[0].name, "not fused:", e)
+        return None
+
+    def _rewrite_executor(self, s, ctx, count):
+        """loop.run_in_executor(ex, helper, a, b) / asyncio.to_thread(helper, a, b) with a new helper: the helper becomes a local
+        closure without parameters (the shape `run_in_executor(None, inner)` that the rules know)"""
+        if not isinstance(s, (ast.Expr, ast.Assign, ast.Return)) or getattr(s, "value", None) is None:
+            return None
+        for c in ast.walk(s.value):
+            if not isinstance(c, ast.Call):
+                continue
+            nm = ast.unparse(c.func)
+            if nm.endswith(".run_in_executor") and len(c.args) >= 3:
+                fpos = 1
+            elif nm.endswith("to_thread") and len(c.args) >= 2:
+                fpos = 0
+            else:
+                continue
+            f = c.args[fpos]
+            if isinstance(f, ast.Name) and f.id in ctx.get("nested_made", ()):
+                continue
+            got = self.callee_of(f, ctx) if isinstance(f, (ast.Name, ast.Attribute)) else None
+            if got is None or isinstance(got[0], ast.AsyncFunctionDef) or _has_yield(got[0]) or c.keywords:
+                continue
+            callee, drop_self = got
+            # arguments that are locals/parameters of the calling function stay parameters of the closure; the others (captured
+            # variables of an outer scope, constants, expressions) are substituted - the shape `run_in_executor(None, inner, event, config)`
+            here = ctx["fn"]
+            here_locals = {a.arg for a in here.args.args + here.args.kwonlyargs} | {n.id for n in _own_walk(here) if isinstance(n, ast.Name) and isinstance(n.ctx, ast.Store)}
+            cparams = [a.arg for a in callee.args.args][1 if drop_self else 0:]
+            given = list(c.args[fpos + 1:])
+            if len(given) > len(cparams) or callee.args.vararg or callee.args.kwarg or callee.args.kwonlyargs:
+                continue
+            keep = [(p, a) for p, a in zip(cparams, given) if isinstance(a, ast.Name) and a.id in here_locals]
+            subst = [(p, a) for p, a in zip(cparams, given) if not (isinstance(a, ast.Name) and a.id in here_locals)]
+            body = copy.deepcopy(_body_wo_doc(callee))
+            defaults = list(callee.args.defaults)
+            dmap = dict(zip(cparams[len(cparams) - len(defaults):], defaults)) if defaults else {}
+            mapping = {p: a for p, a in subst}
+            for p in cparams[len(given):]:
+                if p not in dmap:
+                    mapping = None
+                    break
+                mapping[p] = dmap[p]
+            if mapping is None:
+                continue
+            stores = {n.id for b in body for n in [b] + list(_own_walk(b)) if isinstance(n, ast.Name) and isinstance(n.ctx, ast.Store)}
+            if any(p in stores for p in mapping):
+                continue
+            sub = _Subst(mapping, {})
+            body = [sub.visit(b) for b in body] or [ast.Pass()]
+            name = callee.name
+            if name in ctx["nested"] or any(isinstance(x, FuncT) and x.name == name for x in _own_walk(here)):
+                name = callee.name + _next_suffix()
+            d = ast.FunctionDef(name=name, args=ast.arguments(posonlyargs=[], args=[ast.arg(arg=p, annotation=None) for p, _ in keep], vararg=None, kwonlyargs=[], kw_defaults=[], kwarg=None, defaults=[]),
+                                body=body, decorator_list=[], returns=None, type_comment=None, lineno=s.lineno, col_offset=s.col_offset)
+            if hasattr(d, "type_params"):
+                d.type_params = []
+            c.args = list(c.args[:fpos]) + [ast.Name(id=name, ctx=ast.Load())] + [a for _, a in keep]
+            count[0] += 1
+            ctx["nested_made"] = ctx.get("nested_made", set()) | {name}
+            out = [ast.copy_location(d, s), s]
+            for o in out:
+                ast.fix_missing_locations(o)
+            return out
+        return None
+
+    def _hoist(self, s, ctx, count):
+        heads = []
+        if isinstance(s, ast.If):
+            heads = [("test", s.test)]
+        elif isinstance(s, (ast.Assign, ast.AugAssign, ast.AnnAssign, ast.Return, ast.Expr)) and getattr(s, "value", None) is not None:
+            heads = [("value", s.value)]
+        elif isinstance(s, (ast.For, ast.AsyncFor)):
+            heads = [("iter", s.iter)]
+        elif isinstance(s, ast.Raise) and s.exc is not None:
+            heads = [("exc", s.exc)]
+        for field, head in heads:
+            for c in _first_evaluated(head):
+                if not isinstance(c, ast.Call):
+                    continue
+                got = self.callee_of(c.func, ctx)
+                if got is None or _has_yield(got[0]):
+                    continue
+                callee, drop_self = got
+                is_async = isinstance(callee, ast.AsyncFunctionDef)
+                par = _parent_in(head, c)
+                awaited = isinstance(par, ast.Await)
+                if is_async != awaited:
+                    continue
+                top = par if awaited else c
+                if head is top and (isinstance(s, (ast.Expr, ast.Return)) or (isinstance(s, ast.Assign) and len(s.targets) == 1 and isinstance(s.targets[0], ast.Name))):
+                    continue  # statement position: handled (or refused) by the caller
+                try:
+                    tmp = f"__val{_next_suffix()}"
+                    pre = _instantiate(callee, c, drop_self, tmp, ctx["taken"])
+                except NotInlinable as e:
+                    _dbg("helper", callee.name, "not hoisted:", e)
+                    continue
+                new_head = _replace_node(head, top, ast.copy_location(ast.Name(id=tmp, ctx=ast.Load()), c))
+                setattr(s, field, new_head)
+                count[0] += 1
+                ast.fix_missing_locations(s)
+                return pre + [s]
+        return None
+
+    # ---- driver ------------------------------------------------------------
+    def run(self):
+        focus = self.focus
+        for mod, tree in self.trees.items():
+            if focus is not None and mod not in focus:
+                continue
+            imported = {}
+            for local, tgt in self.imports[mod].items():
+                m2, _, sym = tgt.rpartition(".")
+                if m2 in self.trees and m2 != mod and sym.isupper():
+                    c = module_constants(self.trees[m2]).get(sym)
+                    if c is not None:
+                        imported[local] = c
+            self.stats[mod]["constants_propagated"] = propagate_constants(tree, imported) + propagate_class_constants(tree)
+        if not self.known:
+            return self.stats
+        # names of new helpers; functions that mention none of them (and define no new closure) need no rewriting
+        new_names = set()
+        new_in_focus = False
+        for mod, tree in self.trees.items():
+            for name, fn in self.funcs[mod].items():
+                if self.is_new(mod, name, fn):
+                    new_names.add(name)
+                    new_in_focus = new_in_focus or (focus is not None and mod in focus)
+            for cname, cd in self.classes[mod].items():
+                for st in cd.body:
+                    if isinstance(st, FuncT) and self.is_new(mod, f"{cname}.{st.name}", st):
+                        new_names.add(st.name)
+                        new_in_focus = new_in_focus or (focus is not None and mod in focus)
+        # tables of helpers (dispatch dicts / tuples bound at module or class level) are entry points to them as well
+        if new_names:
+            base_names = set(new_names)
+            for mod, tree in self.trees.items():
+                for st in ast.walk(tree):
+                    if isinstance(st, ast.Assign) and len(st.targets) == 1 and isinstance(st.targets[0], ast.Name) and isinstance(st.value, (ast.Dict, ast.Tuple, ast.List)):
+                        if any((isinstance(x, ast.Name) and x.id in base_names) or (isinstance(x, ast.Attribute) and x.attr in base_names) for x in ast.walk(st.value)):
+                            new_names.add(st.targets[0].id)
+        if focus is not None and new_in_focus:
+            # a helper defined in a re-read module may be called from modules whose (shared) trees must not be touched here:
+            # the caller re-reads the whole package instead
+            self.needs_full_reload = True
+            return self.stats
+        scope = focus
+        closures = {}
+        for mod, tree in self.trees.items():
+            if scope is not None and mod not in scope:
+                continue
+            for fn, cd in self._all_defs(tree):
+                q = (f"{cd.name}." if cd is not None else "") + fn.name
+                for sub in _own_walk(fn):
+                    if isinstance(sub, FuncT) and f"{mod}:{q}.{sub.name}" not in self.known:
+                        closures[id(fn)] = True
+        if not new_names and not closures:
+            return self.stats
+        total = 0
+        for _ in range(4):
+            before = total
+            for mod, tree in self.trees.items():
+                if scope is not None and mod not in scope:
+                    continue
+                n = 0
+                for fn, cd in self._all_defs(tree):
+                    if id(fn) not in closures and not any((isinstance(x, ast.Name) and x.id in new_names) or (isinstance(x, ast.Attribute) and x.attr in new_names) for x in ast.walk(fn)):
+                        continue
+                    n += self.process_function(fn, mod, cd)
+                self.stats[mod]["helper_calls_inlined"] += n
+                total += n
+            if total == before:
+                break
+        if total:
+            self._drop_orphans()
+        return self.stats
+
+    def _all_defs(self, tree):
+        out = []
+
+        def scan(body, cd):
+            for st in body:
+                if isinstance(st, FuncT):
+                    out.append((st, cd))
+                elif isinstance(st, ast.ClassDef):
+                    scan(st.body, st)
+                elif isinstance(st, (ast.If, ast.Try)) and cd is None:
+                    scan(st.body, None)
+                    scan(st.orelse, None)
+                    if isinstance(st, ast.Try):
+                        for h in st.handlers:
+                            scan(h.body, None)
+
+        scan(tree.body, None)
+        return out
+
+    def _drop_orphans(self):
+        """new helpers that are no longer referenced anywhere in the package: remove them so that whole-module scans do not see
+        their bodies twice (once inlined in the audited caller, once in the orphaned helper)"""
+        refs: dict = {}
+        skip = set()
+        for mod, tree in self.trees.items():
+            for n in ast.walk(tree):
+                if id(n) in self.__dict__.get("expanded_tables", ()) or (isinstance(n, (ast.Tuple, ast.List)) and id(n) in self.__dict__.get("unrolled_tables", ())):
+                    # a dispatch table whose uses were expanded into an if-chain no longer keeps its helpers alive
+                    for x in ast.walk(n):
+                        skip.add(id(x))
+        for mod, tree in self.trees.items():
+            for n in ast.walk(tree):
+                if id(n) in skip:
+                    continue
+                if isinstance(n, ast.Name):
+                    refs[n.id] = refs.get(n.id, 0) + 1
+                elif isinstance(n, ast.Attribute):
+                    refs[n.attr] = refs.get(n.attr, 0) + 1
+
+        def self_refs(d):
+            return sum(1 for n in ast.walk(d) if (isinstance(n, ast.Name) and n.id == d.name) or (isinstance(n, ast.Attribute) and n.attr == d.name))
+
+        for mod, tree in self.trees.items():
+            if self.focus is not None and mod not in self.focus:
+                continue
+            for st in list(tree.body):
+                if isinstance(st, FuncT) and self.is_new(mod, st.name, st):
+                    if refs.get(st.name, 0) - self_refs(st) <= 0:
+                        tree.body.remove(st)
+                elif isinstance(st, ast.ClassDef):
+                    for sub in list(st.body):
+                        if isinstance(sub, FuncT) and self.is_new(mod, f"{st.name}.{sub.name}", sub):
+                            if refs.get(sub.name, 0) - self_refs(sub) <= 0:
+                                st.body.remove(sub)
+                    if not st.body:
+                        st.body.append(ast.Pass())
+
+
+def _first_evaluated(expr):
+    """sub-expressions of expr that are evaluated unconditionally, innermost first; does not enter lambdas, comprehensions,
+    the non-first operands of and/or, or the branches of a conditional expression"""
+    out = []
+
+    def go(e):
+        if isinstance(e, (ast.Lambda, ast.ListComp, ast.SetComp, ast.DictComp, ast.GeneratorExp)):
+            return
+        if isinstance(e, ast.BoolOp):
+            go(e.values[0])
+            return
+        if isinstance(e, ast.IfExp):
+            go(e.test)
+            return
+        for ch in ast.iter_child_nodes(e):
+            if isinstance(ch, ast.expr):
+                go(ch)
+            elif isinstance(ch, ast.keyword):
+                go(ch.value)
+        out.append(e)
+
+    go(expr)
+    return out
+
+
+def _parent_in(root, node):
+    for p in ast.walk(root):
+        for c in ast.iter_child_nodes(p):
+            if c is node:
+                return p
+    return None
+
+
+def _replace_node(root, old, new):
+    if root is old:
+        return new
+    for p in ast.walk(root):
+        for field, val in ast.iter_fields(p):
+            if val is old:
+                setattr(p, field, new)
+                return root
+            if isinstance(val, list):
+                for i, x in enumerate(val):
+                    if x is old:
+                        val[i] = new
+                        return root
+    return root
+
+
+def _find_same(copy_root, orig_root, orig_node):
+    """the node of copy_root that corresponds to orig_node in orig_root (same position in a parallel walk)"""
+    for a, b in zip(ast.walk(orig_root), ast.walk(copy_root)):
+        if a is orig_node:
+            return b
+    raise NotInlinable("node not found in copy")
+
+
+def normalize_program(trees: dict, is_init: dict) -> dict:
+    return ProgramNormalizer(trees, is_init).run()
 
 
 def normalize(tree: ast.Module, modname: str) -> dict:
-    c = propagate_constants(tree)
-    i = inline_new_helpers(tree, modname)
-    return {"constants_propagated": c, "helper_calls_inlined": i}
+    """single-module entry point (kept for callers that have one tree only)"""
+    return ProgramNormalizer({modname: tree}, {modname: False}).run()[modname]
